@@ -59,6 +59,9 @@ func mutsV1(a *ddb1.AttributeValue, out *[]mutation) {
 	if a.BOOL != nil {
 		*out = append(*out, mutation{"*bool(BOOL)", func() { *a.BOOL = !*a.BOOL }})
 	}
+	if a.NULL != nil {
+		*out = append(*out, mutation{"*bool(NULL)", func() { *a.NULL = !*a.NULL }})
+	}
 	for i := range a.B {
 		i := i
 		*out = append(*out, mutation{"byte of B", func() { a.B[i] ^= 0xff }})
@@ -125,6 +128,8 @@ func mutsV2(a types2.AttributeValue, out *[]mutation) {
 		*out = append(*out, mutation{"member struct N.Value", func() { x.Value = "424242" }})
 	case *types2.AttributeValueMemberBOOL:
 		*out = append(*out, mutation{"member struct BOOL.Value", func() { x.Value = !x.Value }})
+	case *types2.AttributeValueMemberNULL:
+		*out = append(*out, mutation{"member struct NULL.Value", func() { x.Value = !x.Value }})
 	case *types2.AttributeValueMemberB:
 		for i := range x.Value {
 			i := i
@@ -510,7 +515,7 @@ func c14Keys(run *ev.Run, evals, locations *int64, skipped *int64) {
 func c14Trees(thorough bool) []val.V {
 	leaves := c10Leaves()
 	trees := append([]val.V{}, leaves...)
-	kids := []val.V{val.S("a"), val.N("1.50"), val.B(1, 2), val.Bool(true), val.SS("x", "y"), val.BS([]byte{1}, []byte{2, 3}), val.L(val.S("in"), val.B(9)), val.M("k", val.B(7), "j", val.NS("1"))}
+	kids := []val.V{val.S("a"), val.N("1.50"), val.B(1, 2), val.Bool(true), val.Null(), val.SS("x", "y"), val.NS("1", "2"), val.BS([]byte{1}, []byte{2, 3}), val.L(val.S("in"), val.B(9)), val.M("k", val.B(7), "j", val.NS("1"))}
 	if thorough {
 		kids = append(kids, leaves...)
 	}
@@ -609,7 +614,7 @@ func C14(run *ev.Run, tier string) map[string]interface{} {
 		"evaluations":             evals,
 		"distinct_nontrivial":     locations,
 		"value_trees":             len(trees),
-		"rule":                    "for every value tree (boundary leaves and lists/maps with 0-2 children over a representative set) and every mutable location of its SDK representation (string/bool pointers, every byte of binaries, set members, list elements, map entries; member structs of SDK v2), in every scenario (inputs of PutItem, UpdateItem values, BatchWriteItem; outputs of GetItem, Query, Scan, UpdateItem and the ConditionalCheckFailed item): perform the call on a fresh client, mutate that one location, read the item again; plus output-then-later-write for every output scenario; plus the Key map passed to UpdateItem (creating the item / on an existing item), DeleteItem (rejected) and GetItem, and the LastEvaluatedKey returned by Scan and Query with Limit 1, for S, N and B hash+range keys, every location mutated after the call; a case is distinct by (sdk, scenario, tree, location)",
+		"rule":                    "for every value tree (boundary leaves and lists/maps with 0-2 children over a representative set) and every mutable location of its SDK representation (string/bool pointers incl. the NULL flag, every byte of binaries, set members, list elements, map entries; member structs of SDK v2), in every scenario (inputs of PutItem, UpdateItem values, BatchWriteItem; outputs of GetItem, Query, Scan, UpdateItem and the ConditionalCheckFailed item): perform the call on a fresh client, mutate that one location, read the item again; plus output-then-later-write for every output scenario; plus the Key map passed to UpdateItem (creating the item / on an existing item), DeleteItem (rejected) and GetItem, and the LastEvaluatedKey returned by Scan and Query with Limit 1, for S, N and B hash+range keys, every location mutated after the call; a case is distinct by (sdk, scenario, tree, location)",
 		"oracle":                  "every later GetItem returns the item as written (for UpdateItem values: as the same call stores it on a client whose caller mutates nothing), since the mutation was never passed through the API; a returned structure converts to the same value before and after later writes",
 		"samples":                 []interface{}{"v1 input:PutItem {v: L[S in, B 09]} mutate byte of B", "v2 output:Scan {v: BS[01,0203]} mutate member of BS replaced"},
 		"exhaustive":              true,
